@@ -16,3 +16,6 @@ mod c07;
 
 #[cfg(all(kani, feature = "c10"))]
 mod c10;
+
+#[cfg(all(kani, feature = "c18"))]
+mod c18;
